@@ -77,6 +77,13 @@ def stepLine (s : Sys) (line : String) : Sys × String :=
         let (_, s') := (sendall {} c.toNat! bytes).run s
         let extra := if !s'.clocks.isEmpty then " F:unused_clock_readings" else if !s'.picks.isEmpty then " F:unused_picks" else ""
         (s', renderOut s' ++ extra)
+  | ["wake", c, clocks] =>
+    let s := { s with clocks := parseClocks clocks, picks := [] }
+    let (_, s') := (wakeConn c.toNat!).run s
+    (s', renderOut s' ++ (if !s'.clocks.isEmpty then " F:unused_clock_readings" else ""))
+  | ["timeout", c] =>
+    let (_, s') := (timeoutConn c.toNat!).run s
+    (s', renderOut s')
   | ["glob", p, subj] =>
     match unhexTok p, unhexTok subj with
     | some p, some subj => (s, s!"G {Glob.globMatch p subj} {Glob.rglob p subj}")
